@@ -2,10 +2,23 @@
  *
  * usage: c08_drv <out.ndjson> exact  <casefile>
  *        c08_drv <out.ndjson> ledger <seed> <first> <count> <sep>
+ *        c08_drv <out.ndjson> plan   <planfile>
  *
- * exact : every line of <casefile> is a TLC-generated case  "id n d v_1..v_n x_11..x_nd"  (labels, integer features).
- * ledger: cases <first>..<first+count-1> of the seeded generator: 2..5 classes, 2..6 features, 4..40 objects per class,
+ * exact : every line of <casefile> is a TLC-generated case
+ *           "id n d nT off mul den  v_1..v_n  x_11..x_nd  t_11..t_nTd"
+ *         (labels, integer features, integer extra test points) and the recoding TLC assigned to it: the library sees
+ *         (integer + o_j) * mul / den with o_1 = off, o_2 = -2 off (OffsetOf in spec/Lda.tla); stored means are mapped back.
+ * ledger: cases <first>..<first+count-1> of the seeded base generator: 2..5 classes, 2..6 features, 4..40 objects per class,
  *         balanced/unbalanced, labels from 0 or 1, class centres on a jittered lattice of spacing <sep> sigma.
+ * plan  : one seeded case per line of <planfile>, the input classes of INPUT-CLASSES.md inside C08's quantifier:
+ *           "id seed fam K d start order ntmode shiftexp unitexp grid nproc hist sep dup refit n_1..n_K"
+ *         order 0 shuffled / 1 labels non-increasing / 2 shuffled with the first object in the LAST class / 3 non-decreasing;
+ *         ntmode 0 training objects + 2 fresh per class / 1 a single fresh object / 2 the training objects only; shiftexp e: every feature gets a common offset
+ *         of up to 10^e spreads; unitexp s: all features in units of 2^s; grid g: features rounded to multiples of 1/g;
+ *         nproc: forced processor count (hook H2); hist 1: the case runs twice in ONE process with other models fitted, used
+ *         and freed in between, the second time into output matrices another model's prediction left behind; sep 1: centres
+ *         >= 12 sigma apart, 0: overlapping classes (no pair runs); dup 1: every second object of a class duplicates the one
+ *         before; refit 1: LDA() once more into the used model object (outside the statement).
  *
  * Every model is fitted and used in a CHILD process (vrt_run_child): a crash of the library is attributed to that case
  * (the parent writes a Crash event) and the run goes on.  Events: see spec/TraceLda.tla.
@@ -16,23 +29,32 @@
 
 #define MAXK 8
 #define MAXD 8
+#define MISSCODE 99999999.0
 
 typedef struct {
   long id; int exact, sep, n, d, K, start, balanced, sub;
   int *lab;            /* n training labels */
   double *X;           /* n x d training features */
-  int nt; int *tlab;   /* test objects (exact: the training objects) */
+  int nt; int *tlab;   /* test objects (exact: the training objects, then the extra points) */
   double *T;           /* nt x d */
   uint64_t pairseed;
+  /* round 3 */
+  char fam[24];
+  long *Xi, *Ti; int nT;                 /* exact: integer coordinates as TLC knows them */
+  long rc_off, rc_mul, rc_den;           /* exact: recoding */
+  long shift; int unitexp; double unit;  /* ledger: common offset in spreads (0 = none), unit 2^unitexp */
+  double off[MAXD];                      /* the offsets themselves (in real units) */
+  int nproc, hist, nopair, refit;
 } lcase;
 
 static volatile int *g_stage;      /* shared with the child: which library call is running */
-static const char *STAGE[] = {"none", "fit", "predict", "affine", "perm", "auc", "emit"};
+static const char *STAGE[] = {"none", "fit", "predict", "affine", "perm", "auc", "emit", "lderr", "history", "refit"};
 
 static long clampl(double v){ if(!(v == v)) return VQ_MAX; if(v > 1.9e9) return VQ_MAX; if(v < -1.9e9) return -VQ_MAX; return (long)llround(v); }
 
 static matrix *mk(const double *a, int r, int c){ matrix *m; NewMatrix(&m, r, c); for(int i = 0; i < r; i++) for(int j = 0; j < c; j++) m->data[i][j] = a[i * c + j]; return m; }
 static matrix *mky(const int *lab, int n){ matrix *m; NewMatrix(&m, n, 1); for(int i = 0; i < n; i++) m->data[i][0] = (double)lab[i]; return m; }
+static double oexact(const lcase *c, int j){ return j == 0 ? (double)c->rc_off : -2.0 * (double)c->rc_off; }
 
 typedef struct { LDAMODEL *m; matrix *pf, *pr, *mn, *pred; } fitres;
 /* outputs for LDAPrediction: fresh (reuse == NULL) or REUSED - copies of an earlier call's outputs, i.e. already sized and non-zero */
@@ -40,6 +62,12 @@ static void out_init(fitres *f, fitres *reuse){
   initMatrix(&f->pf); initMatrix(&f->pr); initMatrix(&f->mn); initMatrix(&f->pred);
   if(reuse){ MatrixCopy(reuse->pf, &f->pf); MatrixCopy(reuse->pr, &f->pr); MatrixCopy(reuse->mn, &f->mn); MatrixCopy(reuse->pred, &f->pred); }
 }
+/* outputs of given (other) dimensions holding other data */
+static void out_dims(fitres *f, int r, int cpr, int cmn, double fill){
+  NewMatrix(&f->pf, r, cmn); NewMatrix(&f->pr, r, cpr); NewMatrix(&f->mn, r, cmn); NewMatrix(&f->pred, r, 1);
+  MatrixSet(f->pf, fill); MatrixSet(f->pr, fill); MatrixSet(f->mn, fill); MatrixSet(f->pred, fill);
+}
+static void out_free(fitres *f){ DelMatrix(&f->pf); DelMatrix(&f->pr); DelMatrix(&f->mn); DelMatrix(&f->pred); }
 static void fit_predict_r(const double *X, const int *lab, int n, int d, const double *T, int nt, fitres *f, int stage_fit, int stage_pred, fitres *reuse){
   matrix *x = mk(X, n, d), *y = mky(lab, n), *t = mk(T, nt, d);
   NewLDAModel(&f->m);
@@ -54,7 +82,7 @@ static void fit_predict_r(const double *X, const int *lab, int n, int d, const d
   DelMatrix(&x); DelMatrix(&y); DelMatrix(&t);
 }
 static void fit_predict(const double *X, const int *lab, int n, int d, const double *T, int nt, fitres *f, int stage_fit, int stage_pred){ fit_predict_r(X, lab, n, d, T, nt, f, stage_fit, stage_pred, NULL); }
-static void fit_free(fitres *f){ DelLDAModel(&f->m); DelMatrix(&f->pf); DelMatrix(&f->pr); DelMatrix(&f->mn); DelMatrix(&f->pred); }
+static void fit_free(fitres *f){ DelLDAModel(&f->m); out_free(f); }
 
 /* max over test objects and class pairs of |D_kl - D'_kl| / max(1,|D_kl|); *same = predictions identical */
 static double pair_err(matrix *p1, matrix *q1, matrix *p2, matrix *q2, int *same){
@@ -70,6 +98,25 @@ static double pair_err(matrix *p1, matrix *q1, matrix *p2, matrix *q2, int *same
     }
   }
   return w;
+}
+/* blocks with a common offset: one PairRow per test object, |D - D'| (1e-9 units) and ceil(max(1,|D|)) per class pair; returns rows */
+static int pair_rows(matrix *p1, matrix *p2, long kfq, const char *kind, const char *map){
+  static char buf[2048];
+  if(p1->row != p2->row || p1->col != p2->col) return 0;
+  for(size_t i = 0; i < p1->row; i++){
+    int p = snprintf(buf, sizeof buf, "{\"e\":\"PairRow\",\"kind\":\"%s\",\"map\":\"%s\",\"i\":%zu,\"kf\":%ld,\"e9\":[", kind, map, i + 1, kfq), first = 1;
+    static char mb[1024]; int q = 0; mb[0] = 0;
+    for(size_t k = 0; k < p1->col; k++) for(size_t l = k + 1; l < p1->col; l++){
+      double a = p1->data[i][k] - p1->data[i][l], b = p2->data[i][k] - p2->data[i][l];
+      double m = ceil(fmax(1.0, fabs(a))); if(!(m == m) || m > 1e9) m = 1e9;
+      p += snprintf(buf + p, sizeof buf - p, "%s%ld", first ? "" : ",", vq9(a - b));
+      q += snprintf(mb + q, sizeof mb - q, "%s%ld", first ? "" : ",", (long)m);
+      first = 0;
+    }
+    snprintf(buf + p, sizeof buf - p, "],\"m\":[%s]}", mb);
+    VRT_EMIT("%s", buf);
+  }
+  return (int)p1->row;
 }
 
 /* diagnostics (not judged): did LDA() take its pseudo-inverse fall-back (sum of squares of inv_cov < 1e-3); which covariance
@@ -87,7 +134,7 @@ static void inv_diag(const double *X, const int *lab, int n, int d, matrix *C, i
     for(int p = 0; p < d; p++) for(int q = 0; q < d; q++){ double v = 0; for(int r = 0; r < d; r++) v += S[p][r] * C->data[r][q]; v -= (p == q); if(fabs(v) > res || !(v == v)) res = fabs(v);
       nS += S[p][q] * S[p][q]; nC += C->data[p][q] * C->data[p][q]; }
     if(w == 0) *pinv = nC < 1e-3;
-    if(res < best || w == 0){ best = res; bestkf = sqrt(nS) * sqrt(nC); bw = w; }
+    if(w == 0 || res <= 4.0 * best + 1e-12){ best = res; bestkf = sqrt(nS) * sqrt(nC); bw = w; }      /* both fit (class means coincide): counts as within */
   }
   *ires = best; *kf = bestkf; *within = bw;
 }
@@ -105,11 +152,13 @@ static void orth(vrng *R, int d, double Q[MAXD][MAXD]){
     if(ok) return;
   }
 }
+/* the library reads cells within 0.1 of 99999999 as "missing" (numeric.h): C08 says nothing about missing values, keep away */
+static int near_missing(const double *a, long len){ for(long i = 0; i < len; i++) if(fabs(fabs(a[i]) - MISSCODE) < 1.0) return 1; return 0; }
 
 static void emit_preds(lcase *c, fitres *f, const int *which, int nw){
   /* which: indices into the test set (NULL = all), rows of f->pr / f->pred are in the order of `which` */
   static char buf[4096];
-  for(int r = 0; r < nw; r++){
+  for(int r = 0; r < nw && (size_t)r < f->pr->row && (size_t)r < f->pred->row; r++){     /* a short output is reported by EndPred, not by a crash of the harness */
     int i = which ? which[r] : r;
     int K = (int)f->pr->col, fin = 1, am = 0;
     int p = snprintf(buf, sizeof buf, "{\"e\":\"Pred\",\"i\":%d,\"label\":%ld,\"truth\":%d,", i + 1, clampl(f->pred->data[r][0]), c->tlab[i]);
@@ -121,11 +170,86 @@ static void emit_preds(lcase *c, fitres *f, const int *which, int nw){
   }
 }
 
+/* projected features (outside the statement): one column per stored eigenvector, value = object . eigenvector */
+static void emit_pfeat(lcase *c, LDAMODEL *m, matrix *pf, const double *T, int nt, int reversed, int var){
+  int d = c->d; double w = 0;
+  if(c->exact) return;
+  size_t ne = m->evect->col;
+  if(pf->row == (size_t)nt && pf->col >= ne){
+    size_t c0 = pf->col - ne;        /* the columns this call appended */
+    for(int i = 0; i < nt; i++) for(size_t l = 0; l < ne; l++){
+      const double *x = T + (size_t)(reversed ? nt - 1 - i : i) * d; long double s = 0, sa = 0;
+      for(int j = 0; j < d; j++){ s += (long double)x[j] * m->evect->data[j][l]; sa += fabsl((long double)x[j] * m->evect->data[j][l]); }
+      double e = fabs((double)s - pf->data[i][c0 + l]) / fmax(c->unit, (double)sa); if(!(e == e)) e = 1e300;
+      if(e > w) w = e;
+    }
+  } else w = 1e300;
+  VRT_EMIT("{\"e\":\"PFeat\",\"var\":%d,\"rows\":%zu,\"cols\":%zu,\"n\":%d,\"d\":%zu,\"err\":%ld}", var, pf->row, pf->col, nt, ne, vq12(w));
+}
+
+/* the feature tables the label map indexes (outside the statement): row k of fmean / fsdev = mean / population sdev of the projections of
+ * class k's training objects (label k + start); the density output = the normal density of each projected test object under the table
+ * row of its PREDICTED label */
+static void emit_tables(lcase *c, LDAMODEL *m, fitres *f){
+  if(c->exact) return;
+  int n = c->n, d = c->d; size_t ne = m->evect->col;
+  for(int k = 0; k < c->K; k++){
+    double me = 0, se = 0;
+    if((size_t)k >= m->fmean->row || (size_t)k >= m->fsdev->row || m->fmean->col < ne || m->fsdev->col < ne){ me = se = 1e300; }
+    else for(size_t l = 0; l < ne; l++){
+      long double s1 = 0; double mxp = c->unit; int cnt = 0;
+      for(int i = 0; i < n; i++) if(c->lab[i] == k + c->start){ long double p = 0; for(int j = 0; j < d; j++) p += (long double)c->X[i * d + j] * m->evect->data[j][l]; s1 += p; cnt++; if(fabs((double)p) > mxp) mxp = fabs((double)p); }
+      long double mean = cnt ? s1 / cnt : 0, s2 = 0;
+      for(int i = 0; i < n; i++) if(c->lab[i] == k + c->start){ long double p = 0; for(int j = 0; j < d; j++) p += (long double)c->X[i * d + j] * m->evect->data[j][l]; s2 += (p - mean) * (p - mean); }
+      double sd = cnt ? sqrt((double)(s2 / cnt)) : 0;
+      double e1 = fabs(m->fmean->data[k][l] - (double)mean) / mxp, e2 = fabs(m->fsdev->data[k][l] - sd) / fmax(c->unit, sd);
+      /* the sdev of projections that sit on a large offset carries the cancellation of the offset: relative to the projections' size */
+      e2 = fabs(m->fsdev->data[k][l] - sd) / fmax(sd, 1e-6 * mxp);
+      if(!(e1 == e1)) e1 = 1e300; if(!(e2 == e2)) e2 = 1e300;
+      if(e1 > me) me = e1; if(e2 > se) se = e2;
+    }
+    VRT_EMIT("{\"e\":\"FTab\",\"k\":%d,\"rows\":%zu,\"cols\":%zu,\"ne\":%zu,\"merr\":%ld,\"serr\":%ld}", k, m->fmean->row, m->fmean->col, ne, vq12(me), vq12(se));
+  }
+  double w = 0;
+  if(f->mn->row != (size_t)c->nt || f->mn->col != ne || f->pred->row != (size_t)c->nt) w = 1e300;
+  else for(int j = 0; j < c->nt; j++) for(size_t l = 0; l < ne; l++){
+    long id = (long)f->pred->data[j][0] - c->start;
+    if(id < 0 || (size_t)id >= m->fmean->row){ w = 1e300; continue; }
+    double pj = 0; for(int q = 0; q < d; q++) pj += c->T[j * d + q] * m->evect->data[q][l];      /* summed in the library's order */
+    double sd = m->fsdev->data[id][l], z = (pj - m->fmean->data[id][l]) / sd;
+    double ex = 1.0 / sqrt(2 * 3.14159265358979323846 * sd) * exp(-(z * z) / 2.0);
+    double e = fabs(f->mn->data[j][l] - ex) / fmax(fabs(ex), 1e-280); if(!(e == e)) e = 1e300;
+    if(e > w) w = e;
+  }
+  VRT_EMIT("{\"e\":\"MnPdf\",\"rows\":%zu,\"cols\":%zu,\"n\":%d,\"ne\":%zu,\"err\":%ld}", f->mn->row, f->mn->col, c->nt, ne, vq12(w));
+}
+
+/* K7: what the first pass of a history case stored (compared by the second pass) */
+static matrix *g_keep_pr = NULL, *g_keep_pred = NULL;
+static fitres *g_preout = NULL;         /* outputs another model's prediction left behind: the main call of pass 2 predicts into them */
+static uintptr_t g_freed[3] = {0, 0, 0}; static int g_areuse = 0;   /* addresses of freed models, saved before the free */
+
+static void emit_case(lcase *c);
+static void auc_block(lcase *c, matrix *yt, matrix *yp, const char *src){
+  dvector *ra, *pa; initDVector(&ra); initDVector(&pa);
+  tensor *roc; initTensor(&roc);
+  *g_stage = 5;
+  LDAMulticlassStatistics(yt, yp, roc, ra, NULL, pa);
+  *g_stage = 6;
+  for(size_t k = 0; k < ra->size; k++) VRT_EMIT("{\"e\":\"Auc\",\"k\":%zu,\"err\":%ld,\"src\":\"%s\"}", k, vq12(ra->data[k] - 1.0), src);
+  VRT_EMIT("{\"e\":\"AucEnd\",\"count\":%zu,\"src\":\"%s\",\"curves\":%zu,\"prc\":%zu}", ra->size, src, roc->order, pa->size);
+  DelDVector(&ra); DelDVector(&pa); DelTensor(&roc);
+  (void)c;
+}
+
 /* ---- the child: everything that calls the library for one case */
 static int run_case(void *arg){
   lcase *c = (lcase *)arg; fitres f;
-  int n = c->n, d = c->d;
-  if(c->sub){
+  int n = c->n, d = c->d, pre = 0;
+#ifdef LIBSCIENTIFIC_VERIF
+  vrt_force_nproc(c->nproc > 0 ? (size_t)c->nproc : 1);
+#endif
+  if(c->sub == 1){
     /* predict only the test objects of the third and later classes (a subset is predicted like the whole) */
     int *which = malloc(sizeof(int) * c->nt), nw = 0;
     for(int i = 0; i < c->nt; i++) if(c->tlab[i] - c->start >= 2) which[nw++] = i;
@@ -136,7 +260,15 @@ static int run_case(void *arg){
     VRT_EMIT("{\"e\":\"EndPred\",\"n\":%d,\"rows\":%zu}", nw, f.pred->row);
     return 0;
   }
-  fit_predict(c->X, c->lab, n, d, c->T, c->nt, &f, 1, -1);
+  /* fit only; the main prediction goes into fresh outputs or (second pass of a history) into what another model left behind */
+  { matrix *x = mk(c->X, n, d), *y = mky(c->lab, n);
+    NewLDAModel(&f.m);
+    for(int q = 0; q < 3; q++) if(g_freed[q] && (uintptr_t)f.m == g_freed[q]) g_areuse = 1;
+    *g_stage = 1; LDA(x, y, f.m); *g_stage = 6;
+    DelMatrix(&x); DelMatrix(&y);
+    pre = g_preout != NULL;
+    if(g_preout){ f.pf = g_preout->pf; f.pr = g_preout->pr; f.mn = g_preout->mn; f.pred = g_preout->pred; g_preout = NULL; }
+    else out_init(&f, NULL); }
   LDAMODEL *m = f.m;
   /* -- what LDA() stored */
   { static char buf[1024]; int p = snprintf(buf, sizeof buf, "{\"e\":\"Labels\",\"start\":%ld,\"nclass\":%ld,\"counts\":[", clampl((double)m->class_start), clampl((double)m->nclass));
@@ -151,7 +283,8 @@ static int run_case(void *arg){
   for(size_t k = 0; k < m->mu->row; k++){
     if(c->exact){
       for(size_t j = 0; j < m->mu->col; j++){
-        double v = m->mu->data[k][j] * 420.0;       /* lcm(1..7): every class mean of <= 7 integers is a multiple of 1/420 */
+        /* back to the integer coordinates TLC knows, then x 420 = lcm(1..7): every class mean of <= 7 integers is a multiple of 1/420 */
+        double v = (m->mu->data[k][j] * (double)c->rc_den / (double)c->rc_mul - oexact(c, (int)j)) * 420.0;
         VRT_EMIT("{\"e\":\"Mu\",\"k\":%zu,\"j\":%zu,\"num\":%ld,\"den\":420,\"err\":%ld}", k, j + 1, clampl(v), vq12(v - (double)clampl(v)));
       }
     }
@@ -162,7 +295,7 @@ static int run_case(void *arg){
         for(int i = 0; i < n; i++) if(c->lab[i] == (int)k + c->start){ s += c->X[i * d + j]; cnt++; }
         double avg = cnt ? (double)(s / cnt) : NAN;
         double v = (size_t)j < m->mu->col ? m->mu->data[k][j] : NAN;
-        double e = fabs(v - avg) / fmax(1.0, fabs(avg)); if(!(e == e)) e = 1e300;
+        double e = fabs(v - avg) / fmax(c->unit, fabs(avg)); if(!(e == e)) e = 1e300;
         if(e > w) w = e;
       }
       VRT_EMIT("{\"e\":\"MuL\",\"k\":%zu,\"err\":%ld}", k, vq12(w));
@@ -177,7 +310,8 @@ static int run_case(void *arg){
   /* stored score vs the documented discriminant of the stored model */
   double kf0 = 0;
   { double w = 0; int K = (int)m->mu->row;
-    for(int i = 0; i < c->nt; i++) for(int k = 0; k < K && k < (int)f.pr->col; k++){
+    if(f.pr->row < (size_t)c->nt) w = 1e300;          /* a short output: reported by EndPred as well */
+    for(int i = 0; i < c->nt && (size_t)i < f.pr->row; i++) for(int k = 0; k < K && k < (int)f.pr->col; k++){
       long double a = 0, b = 0;
       for(int p = 0; p < d; p++) for(int q = 0; q < d; q++){ a += (long double)m->mu->data[k][p] * m->inv_cov->data[p][q] * c->T[i * d + q]; b += (long double)m->mu->data[k][p] * m->inv_cov->data[p][q] * m->mu->data[k][q]; }
       double fk = (double)(a - 0.5L * b) + log(m->pprob->data[k]);
@@ -187,46 +321,93 @@ static int run_case(void *arg){
     int pinv, wi; double kf, ires; inv_diag(c->X, c->lab, n, d, m->inv_cov, &pinv, &kf, &ires, &wi); kf0 = kf;
     VRT_EMIT("{\"e\":\"Disc\",\"err\":%ld,\"pinv\":%d,\"kf\":%ld,\"invres\":%ld,\"cov\":\"%s\"}", vq12(w), pinv, vq_unit(kf, 1.0), vq12(ires), wi ? "within" : "total"); }
   VRT_EMIT("{\"e\":\"EndPred\",\"n\":%d,\"rows\":%zu}", c->nt, f.pred->row);
+  emit_pfeat(c, m, f.pf, c->T, c->nt, 0, pre ? 4 : 0);
+  emit_tables(c, m, &f);
   DelMatrix(&t);
-  /* -- a second call with REUSED outputs (already sized, holding the first call's non-zero results) on an equally sized object
-   *    set (the test objects in reverse order) must return what a fresh call returns */
+  /* K7 second pass: the same case gave the same answers before the other models lived in this process */
+  if(c->sub == 2 && g_keep_pr){
+    double w = 0; int same = g_keep_pr->row == f.pr->row && g_keep_pr->col == f.pr->col && g_keep_pred->row == f.pred->row;
+    if(same) for(size_t i = 0; i < f.pr->row; i++){
+      if(g_keep_pred->data[i][0] != f.pred->data[i][0]) same = 0;
+      for(size_t k = 0; k < f.pr->col; k++){ double a = g_keep_pr->data[i][k], b2 = f.pr->data[i][k]; double e = fabs(a - b2) / fmax(1.0, fabs(a)); if(!(e == e)) e = 1e300; if(e > w) w = e; } }
+    else w = 1e300;
+    VRT_EMIT("{\"e\":\"Hist\",\"err\":%ld,\"same\":%d,\"rows\":%zu,\"n\":%d,\"areuse\":%d}", vq12(w), same, f.pred->row, c->nt, g_areuse);
+  }
+  if(c->hist && c->sub == 0){ initMatrix(&g_keep_pr); initMatrix(&g_keep_pred); MatrixCopy(f.pr, &g_keep_pr); MatrixCopy(f.pred, &g_keep_pred); }
+  /* -- further calls on the SAME model with REUSED outputs must return what the first call returned.  The test objects go in
+   *    reverse order.  var 0: outputs = copies of the first call's (sized alike, non-zero); 1: larger and filled with 7.5;
+   *    2: 1 x 1 filled with -3; 3: var 0's outputs after the model predicted a single other object into them in between */
   { int nt = c->nt; double *Tr = malloc(sizeof(double) * nt * d);
     for(int i = 0; i < nt; i++) memcpy(Tr + i * d, c->T + (nt - 1 - i) * d, sizeof(double) * d);
-    matrix *tr = mk(Tr, nt, d); fitres g2; g2.m = m; out_init(&g2, &f);
-    *g_stage = 2;
-    LDAPrediction(tr, m, g2.pf, g2.pr, g2.mn, g2.pred);
-    *g_stage = 6;
-    double w = 0; int same = g2.pr->row == f.pr->row && g2.pr->col == f.pr->col && g2.pred->row == f.pred->row;
-    if(same) for(int i = 0; i < nt; i++){
-      if(g2.pred->data[i][0] != f.pred->data[nt - 1 - i][0]) same = 0;
-      for(size_t k = 0; k < f.pr->col; k++){ double a = f.pr->data[nt - 1 - i][k], b2 = g2.pr->data[i][k]; double e = fabs(a - b2) / fmax(1.0, fabs(a)); if(!(e == e)) e = 1e300; if(e > w) w = e; } }
-    else w = 1e300;
-    VRT_EMIT("{\"e\":\"Reuse\",\"err\":%ld,\"same\":%d,\"rows\":%zu,\"n\":%d}", vq12(w), same, g2.pred->row, nt);
-    DelMatrix(&g2.pf); DelMatrix(&g2.pr); DelMatrix(&g2.mn); DelMatrix(&g2.pred); DelMatrix(&tr); free(Tr); }
+    matrix *tr = mk(Tr, nt, d);
+    for(int var = 0; var < 4; var++){
+      fitres g2; g2.m = m;
+      if(var == 0 || var == 3) out_init(&g2, &f);
+      else if(var == 1) out_dims(&g2, nt + 3, (int)f.pr->col + 2, d + 1, 7.5);
+      else out_dims(&g2, 1, 1, 1, -3.0);
+      if(var == 3){ matrix *one = mk(c->T + (size_t)(nt / 2) * d, 1, d); *g_stage = 2; LDAPrediction(one, m, g2.pf, g2.pr, g2.mn, g2.pred); DelMatrix(&one); }
+      *g_stage = 2;
+      LDAPrediction(tr, m, g2.pf, g2.pr, g2.mn, g2.pred);
+      *g_stage = 6;
+      double w = 0; int same = g2.pr->row == f.pr->row && g2.pr->col == f.pr->col && g2.pred->row == f.pred->row && f.pr->row == (size_t)nt && f.pred->row == (size_t)nt;
+      if(same) for(int i = 0; i < nt; i++){
+        if(g2.pred->data[i][0] != f.pred->data[nt - 1 - i][0]) same = 0;
+        for(size_t k = 0; k < f.pr->col; k++){ double a = f.pr->data[nt - 1 - i][k], b2 = g2.pr->data[i][k]; double e = fabs(a - b2) / fmax(1.0, fabs(a)); if(!(e == e)) e = 1e300; if(e > w) w = e; } }
+      else w = 1e300;
+      VRT_EMIT("{\"e\":\"Reuse\",\"var\":%d,\"err\":%ld,\"same\":%d,\"rows\":%zu,\"n\":%d}", var, vq12(w), same, g2.pred->row, nt);
+      if(var <= 1) emit_pfeat(c, m, g2.pf, Tr, nt, 0, var + 1);
+      out_free(&g2);
+    }
+    DelMatrix(&tr); free(Tr); }
+  /* -- LDAError (outside the statement): per-class rates of the test set against the confusion counts TLC derives */
   if(!c->exact){
+    matrix *tt = mk(c->T, c->nt, d), *yy = mky(c->tlab, c->nt);
+    dvector *se, *sp, *pp, *np_, *ac; initDVector(&se); initDVector(&sp); initDVector(&pp); initDVector(&np_); initDVector(&ac);
+    *g_stage = 7;
+    LDAError(tt, yy, m, se, sp, pp, np_, ac);
+    *g_stage = 6;
+    size_t cnt = se->size;
+    if(sp->size < cnt) cnt = sp->size; if(pp->size < cnt) cnt = pp->size; if(np_->size < cnt) cnt = np_->size; if(ac->size < cnt) cnt = ac->size;
+    for(size_t k = 0; k < cnt; k++)
+      VRT_EMIT("{\"e\":\"Err\",\"k\":%zu,\"sens\":%ld,\"spec\":%ld,\"ppv\":%ld,\"npv\":%ld,\"acc\":%ld}", k, clampl(se->data[k] * 1e6), clampl(sp->data[k] * 1e6), clampl(pp->data[k] * 1e6), clampl(np_->data[k] * 1e6), clampl(ac->data[k] * 1e6));
+    VRT_EMIT("{\"e\":\"ErrEnd\",\"count\":%zu}", se->size);
+    DelDVector(&se); DelDVector(&sp); DelDVector(&pp); DelDVector(&np_); DelDVector(&ac); DelMatrix(&tt); DelMatrix(&yy);
+  }
+  if(!c->exact && !c->nopair){
     vrng R = { c->pairseed };
     /* -- affine re-coding of train and test: x -> A x + b, cond(A) <= 100, in feature UNIT SYSTEMS: a dense map A = Q1 diag(s) Q2 and
      *    a diagonal one (per-feature units), overall scale from 1e-3 up to 1e4; in the "large" regime every variance is large (raw
      *    units: LDA() takes its pseudo-inverse branch) and the condition number is 32..100.  The re-coded data are predicted into
-     *    REUSED output matrices (copies of the base results). */
+     *    REUSED output matrices (copies of the base results).  Families with their own unit or offset get a third map back to
+     *    centred data in unit 1 ("recentre"); their random maps keep the overall scale within 1/2..2. */
     double Q1[MAXD][MAXD], Q2[MAXD][MAXD], A[MAXD][MAXD], b[MAXD], s[MAXD];
     double *X2 = malloc(sizeof(double) * n * d), *T2 = malloc(sizeof(double) * c->nt * d);
-    for(int map = 0; map < 2; map++){
+    int special = c->shift > 0 || c->unitexp != 0;
+    for(int map = 0; map < (special ? 3 : 2); map++){
       int large = vr_unif(&R) < 0.5;
       double kap = large ? pow(10.0, 1.5 + 0.5 * vr_unif(&R)) : pow(10.0, 2.0 * vr_unif(&R));
       double g = large ? 10.0 * pow(1e3 / kap, vr_unif(&R)) : pow(10.0, -3.0 + 5.0 * vr_unif(&R));     /* g * kap <= 1e4 */
+      /* a dense map with condition number kap turns a common offset of r spreads into one of up to r * kap spreads of the narrowest direction:
+       * blocks with a large offset get dense maps that are nearly isotropic (kap <= 2); per-feature units keep the ratio feature by feature */
+      if(special){ large = 0; if(c->shift > 0 && map == 0) kap = 1.0 + vr_unif(&R); g = (0.5 + 1.5 * vr_unif(&R)) / sqrt(kap); }
       s[0] = g; for(int j = 1; j < d; j++) s[j] = g * pow(kap, j == d - 1 ? 1.0 : vr_unif(&R));
       for(int j = d - 1; j > 0; j--){ int q = (int)vr_int(&R, 0, j); double tv = s[j]; s[j] = s[q]; s[q] = tv; }
       if(map == 0){ orth(&R, d, Q1); orth(&R, d, Q2); }
       else for(int i = 0; i < d; i++) for(int j = 0; j < d; j++) Q1[i][j] = Q2[i][j] = (i == j);
-      for(int i = 0; i < d; i++){ b[i] = 10.0 * (map ? s[i] : g) * vr_norm(&R); for(int j = 0; j < d; j++){ double v = 0; for(int q = 0; q < d; q++) v += Q1[i][q] * s[q] * Q2[q][j]; A[i][j] = v; } }
-      for(int i = 0; i < n; i++) for(int j = 0; j < d; j++){ double v = b[j]; for(int q = 0; q < d; q++) v += A[j][q] * c->X[i * d + q]; X2[i * d + j] = v; }
-      for(int i = 0; i < c->nt; i++) for(int j = 0; j < d; j++){ double v = b[j]; for(int q = 0; q < d; q++) v += A[j][q] * c->T[i * d + q]; T2[i * d + j] = v; }
+      for(int i = 0; i < d; i++){ b[i] = 10.0 * (map ? s[i] : g) * c->unit * vr_norm(&R); for(int j = 0; j < d; j++){ double v = 0; for(int q = 0; q < d; q++) v += Q1[i][q] * s[q] * Q2[q][j]; A[i][j] = v; } }
+      if(map == 2){ kap = 1; g = 1.0 / c->unit; for(int i = 0; i < d; i++){ b[i] = -c->off[i] / c->unit; for(int j = 0; j < d; j++) A[i][j] = (i == j) ? 1.0 / c->unit : 0.0; } }
+      for(int tries = 0; tries < 4; tries++){
+        for(int i = 0; i < n; i++) for(int j = 0; j < d; j++){ double v = b[j]; for(int q = 0; q < d; q++) v += A[j][q] * c->X[i * d + q]; X2[i * d + j] = v; }
+        for(int i = 0; i < c->nt; i++) for(int j = 0; j < d; j++){ double v = b[j]; for(int q = 0; q < d; q++) v += A[j][q] * c->T[i * d + q]; T2[i * d + j] = v; }
+        if(!near_missing(X2, (long)n * d) && !near_missing(T2, (long)c->nt * d)) break;
+        for(int j = 0; j < d; j++) b[j] += 3.0 * g * c->unit;
+      }
       fitres f2; int same;
       fit_predict_r(X2, c->lab, n, d, T2, c->nt, &f2, 3, 3, &f);
       double e = pair_err(f.pr, f.pred, f2.pr, f2.pred, &same);
       int pinv, wi; double kf, ires; inv_diag(X2, c->lab, n, d, f2.m->inv_cov, &pinv, &kf, &ires, &wi);
-      VRT_EMIT("{\"e\":\"Pair\",\"kind\":\"affine\",\"map\":\"%s\",\"large\":%d,\"err\":%ld,\"same\":%d,\"cond\":%ld,\"scale\":%ld,\"pinv\":%d,\"kf\":%ld,\"invres\":%ld}", map ? "diag" : "dense", large, vq12(e), same, vq_unit(kap, 1e-3), vq_unit(g, 1e-3), pinv, vq_unit(fmax(kf, kf0), 1.0), vq12(ires));
+      int rows = c->shift > 0 ? pair_rows(f.pr, f2.pr, vq_unit(fmax(kf, kf0), 1.0), "affine", map == 2 ? "recentre" : map ? "diag" : "dense") : 0;
+      VRT_EMIT("{\"e\":\"Pair\",\"kind\":\"affine\",\"map\":\"%s\",\"large\":%d,\"err\":%ld,\"same\":%d,\"cond\":%ld,\"scale\":%ld,\"pinv\":%d,\"kf\":%ld,\"invres\":%ld,\"rows\":%d}", map == 2 ? "recentre" : map ? "diag" : "dense", large, vq12(e), same, vq_unit(kap, 1e-3), vq_unit(g * c->unit, 1e-3), pinv, vq_unit(fmax(kf, kf0), 1.0), vq12(ires), rows);
       fit_free(&f2);
     }
     int same; double e;
@@ -238,42 +419,101 @@ static int run_case(void *arg){
     fitres f3;
     fit_predict_r(X2, lab3, n, d, c->T, c->nt, &f3, 4, 4, &f);
     e = pair_err(f.pr, f.pred, f3.pr, f3.pred, &same);
-    VRT_EMIT("{\"e\":\"Pair\",\"kind\":\"perm\",\"err\":%ld,\"same\":%d,\"cond\":0,\"scale\":0,\"kf\":%ld}", vq12(e), same, vq_unit(kf0, 1.0));
+    int rows = c->shift > 0 ? pair_rows(f.pr, f3.pr, vq_unit(kf0, 1.0), "perm", "perm") : 0;
+    VRT_EMIT("{\"e\":\"Pair\",\"kind\":\"perm\",\"map\":\"perm\",\"err\":%ld,\"same\":%d,\"cond\":0,\"scale\":0,\"kf\":%ld,\"rows\":%d}", vq12(e), same, vq_unit(kf0, 1.0), rows);
     fit_free(&f3);
     free(X2); free(T2); free(perm); free(lab3);
   }
-  /* -- one-vs-rest ROC of perfect predictions (labels numbered from 0 only) */
+  /* -- one-vs-rest ROC of perfect predictions (labels numbered from 0 only): the training labels against themselves, and the
+   *    test truth against what LDAPrediction returned when that is perfect */
   if(c->start == 0){
     matrix *yt = mky(c->lab, n), *yp = mky(c->lab, n);
-    dvector *ra, *pa; initDVector(&ra); initDVector(&pa);
-    *g_stage = 5;
-    LDAMulticlassStatistics(yt, yp, NULL, ra, NULL, pa);
-    *g_stage = 6;
-    for(size_t k = 0; k < ra->size; k++) VRT_EMIT("{\"e\":\"Auc\",\"k\":%zu,\"err\":%ld}", k, vq12(ra->data[k] - 1.0));
-    VRT_EMIT("{\"e\":\"AucEnd\",\"count\":%zu}", ra->size);
-    DelDVector(&ra); DelDVector(&pa); DelMatrix(&yt); DelMatrix(&yp);
+    auc_block(c, yt, yp, "labels");
+    DelMatrix(&yt); DelMatrix(&yp);
+    int perfect = f.pred->row == (size_t)c->nt, seen[MAXK] = {0}, all = 1;
+    for(int i = 0; i < c->nt && perfect; i++){ if(f.pred->data[i][0] != (double)c->tlab[i]) perfect = 0; else if(c->tlab[i] >= 0 && c->tlab[i] < MAXK) seen[c->tlab[i]] = 1; }
+    for(int k = 0; k < c->K; k++) if(!seen[k]) all = 0;
+    if(perfect && all && !c->exact){
+      matrix *y2 = mky(c->tlab, c->nt);
+      auc_block(c, y2, f.pred, "pred");
+      DelMatrix(&y2);
+    }
   }
+  /* -- LDA() once more into the model object that already holds a fit, now of the mirrored data (outside the statement) */
+  if(c->refit){
+    double *Xn = malloc(sizeof(double) * n * d); for(long i = 0; i < (long)n * d; i++) Xn[i] = -c->X[i];
+    double *Tn = malloc(sizeof(double) * c->nt * d); for(long i = 0; i < (long)c->nt * d; i++) Tn[i] = -c->T[i];
+    fitres fr; fit_predict(Xn, c->lab, n, d, Tn, c->nt, &fr, 9, 9);
+    matrix *x = mk(Xn, n, d), *y = mky(c->lab, n), *tn = mk(Tn, c->nt, d);
+    *g_stage = 9;
+    LDA(x, y, m);
+    fitres g3; g3.m = m; out_init(&g3, NULL);
+    LDAPrediction(tn, m, g3.pf, g3.pr, g3.mn, g3.pred);
+    *g_stage = 6;
+    double w = 0; int same = g3.pr->row == fr.pr->row && g3.pr->col == fr.pr->col && g3.pred->row == fr.pred->row;
+    if(same) for(size_t i = 0; i < fr.pr->row; i++){
+      if(g3.pred->data[i][0] != fr.pred->data[i][0]) same = 0;
+      for(size_t k = 0; k < fr.pr->col; k++){ double a = fr.pr->data[i][k], b2 = g3.pr->data[i][k]; double e = fabs(a - b2) / fmax(1.0, fabs(a)); if(!(e == e)) e = 1e300; if(e > w) w = e; } }
+    else w = 1e300;
+    VRT_EMIT("{\"e\":\"Refit\",\"psize\":%zu,\"murows\":%zu,\"K\":%d,\"same\":%d,\"err\":%ld}", m->pprob->size, m->mu->row, c->K, same, vq12(w));
+    out_free(&g3); fit_free(&fr); DelMatrix(&x); DelMatrix(&y); DelMatrix(&tn); free(Xn); free(Tn);
+  }
+  g_freed[0] = (uintptr_t)f.m;
   fit_free(&f);
   return 0;
 }
 
 static void emit_case(lcase *c){
-  static char buf[1 << 16]; int p = 0;
+  static char buf[1 << 17]; int p = 0;
   VRT_EMIT("{\"e\":\"Reset\"}");
-  p += snprintf(buf + p, sizeof buf - p, "{\"e\":\"Case\",\"id\":%ld,\"mode\":\"%s\",\"sub\":%d,\"sep\":%d,\"K\":%d,\"d\":%d,\"start\":%d,\"balanced\":%d,\"lab\":[", c->id, c->exact ? "exact" : "ledger", c->sub, c->sep, c->K, c->d, c->start, c->balanced);
+  p += snprintf(buf + p, sizeof buf - p, "{\"e\":\"Case\",\"id\":%ld,\"mode\":\"%s\",\"fam\":\"%s\",\"sub\":%d,\"sep\":%d,\"K\":%d,\"d\":%d,\"start\":%d,\"balanced\":%d,"
+                "\"nt\":%d,\"shift\":%ld,\"unit\":%d,\"nproc\":%d,\"hist\":%d,\"rc\":{\"off\":%ld,\"mul\":%ld,\"den\":%ld},\"lab\":[",
+                c->id, c->exact ? "exact" : "ledger", c->fam, c->sub, c->sep, c->K, c->d, c->start, c->balanced, c->nt, c->shift, c->unitexp, c->nproc, c->hist,
+                c->rc_off, c->rc_mul, c->rc_den);
   for(int i = 0; i < c->n; i++) p += snprintf(buf + p, sizeof buf - p, "%s%d", i ? "," : "", c->lab[i]);
   p += snprintf(buf + p, sizeof buf - p, "],\"X\":[");
-  if(c->exact) for(int i = 0; i < c->n; i++){ p += snprintf(buf + p, sizeof buf - p, "%s[", i ? "," : ""); for(int j = 0; j < c->d; j++) p += snprintf(buf + p, sizeof buf - p, "%s%ld", j ? "," : "", (long)c->X[i * c->d + j]); p += snprintf(buf + p, sizeof buf - p, "]"); }
+  if(c->exact) for(int i = 0; i < c->n; i++){ p += snprintf(buf + p, sizeof buf - p, "%s[", i ? "," : ""); for(int j = 0; j < c->d; j++) p += snprintf(buf + p, sizeof buf - p, "%s%ld", j ? "," : "", c->Xi[i * c->d + j]); p += snprintf(buf + p, sizeof buf - p, "]"); }
+  p += snprintf(buf + p, sizeof buf - p, "],\"T\":[");
+  if(c->exact) for(int i = 0; i < c->nT; i++){ p += snprintf(buf + p, sizeof buf - p, "%s[", i ? "," : ""); for(int j = 0; j < c->d; j++) p += snprintf(buf + p, sizeof buf - p, "%s%ld", j ? "," : "", c->Ti[i * c->d + j]); p += snprintf(buf + p, sizeof buf - p, "]"); }
   snprintf(buf + p, sizeof buf - p, "]}");
   VRT_EMIT("%s", buf);
+}
+
+static void gen_ledger(uint64_t seed, long idx, double sep, lcase *c);
+static void free_case(lcase *c){ free(c->lab); free(c->X); if(c->tlab != c->lab) free(c->tlab); if(c->T != c->X) free(c->T); free(c->Xi); free(c->Ti); }
+
+/* K7: the case, then other models fitted / used / freed in the same process, then the case again */
+static int run_hist(void *arg){
+  lcase *c = (lcase *)arg;
+  int rc = run_case(c);
+  if(rc) return rc;
+  *g_stage = 8;
+  /* another shape (other class count, other dimension), its model kept alive while a third one of the first shape but other
+   * data is fitted and freed; the outputs of the other-shape prediction are what pass 2 predicts into */
+  lcase o1; memset(&o1, 0, sizeof o1);
+  for(long idx = 0; ; idx++){ gen_ledger(c->pairseed, idx, 16.0, &o1); if(o1.K != c->K && o1.d != c->d && o1.n != c->n) break; free_case(&o1); memset(&o1, 0, sizeof o1); }
+  static fitres fo1; fit_predict(o1.X, o1.lab, o1.n, o1.d, o1.T, o1.nt, &fo1, 8, 8);
+  { double *Xo = malloc(sizeof(double) * c->n * c->d); for(long i = 0; i < (long)c->n * c->d; i++) Xo[i] = c->X[i] * 1.25 + c->unit;
+    fitres fo2; fit_predict(Xo, c->lab, c->n, c->d, c->T, c->nt, &fo2, 8, 8); g_freed[1] = (uintptr_t)fo2.m; fit_free(&fo2); free(Xo); }
+  g_freed[2] = (uintptr_t)fo1.m;
+  DelLDAModel(&fo1.m);
+  g_preout = &fo1;
+  *g_stage = 6;
+  c->sub = 2;
+  emit_case(c);
+  rc = run_case(c);
+  free_case(&o1);
+  return rc;
 }
 
 static void drive(lcase *c){
   emit_case(c);
   *g_stage = 0;
-  int rc = vrt_run_child(run_case, c, 60);
+  int rc = vrt_run_child(c->hist && c->sub == 0 ? run_hist : run_case, c, 90);
   if(rc != 0) VRT_EMIT("{\"e\":\"Crash\",\"id\":%ld,\"rc\":%d,\"stage\":\"%s\",\"start\":%d,\"sub\":%d}", c->id, rc, STAGE[*g_stage], c->start, c->sub);
 }
+
+static void case_defaults(lcase *c){ c->rc_off = 0; c->rc_mul = 1; c->rc_den = 1; c->shift = 0; c->unitexp = 0; c->unit = 1.0; c->nproc = 1; strcpy(c->fam, "base"); }
 
 static void gen_ledger(uint64_t seed, long idx, double sep, lcase *c){
   vrng R = { seed * 0x9E3779B97F4A7C15ULL + (uint64_t)idx * 7919 + 11 };
@@ -292,6 +532,7 @@ static void gen_ledger(uint64_t seed, long idx, double sep, lcase *c){
     for(int j = 0; j < d; j++) cen[k][j] = sep * (lat[k][j] + 0.1 * (vr_unif(&R) - 0.5));
   }
   int fresh = 2, nt = n + fresh * K;
+  case_defaults(c);
   c->id = idx; c->exact = 0; c->sep = 1; c->n = n; c->d = d; c->K = K; c->start = start; c->balanced = bal; c->sub = 0;
   c->lab = malloc(sizeof(int) * n); c->X = malloc(sizeof(double) * n * d); c->nt = nt; c->tlab = malloc(sizeof(int) * nt); c->T = malloc(sizeof(double) * nt * d);
   int r = 0;
@@ -304,8 +545,72 @@ static void gen_ledger(uint64_t seed, long idx, double sep, lcase *c){
   c->pairseed = vr_next(&R);
 }
 
+/* the stratified families of round 3: shapes, block sizes, offsets, units, grids, processor counts, histories, duplicates, label orders */
+typedef struct { long id; uint64_t seed; char fam[24]; int K, d, start, order, ntmode, shiftexp, unitexp, grid, nproc, hist, sep, dup, refit, cnt[MAXK]; } plan;
+static void gen_plan(const plan *pl, lcase *c){
+  vrng R = { pl->seed * 0x9E3779B97F4A7C15ULL + (uint64_t)pl->id * 104729 + 17 };
+  int K = pl->K, d = pl->d, start = pl->start, n = 0, bal = 1;
+  for(int k = 0; k < K; k++){ n += pl->cnt[k]; if(pl->cnt[k] != pl->cnt[0]) bal = 0; }
+  double spacing = pl->sep ? 16.0 : 1.5;
+  double cen[MAXK][MAXD]; int lat[MAXK][MAXD];
+  for(int k = 0; k < K; k++){
+    for(;;){ int dup = 0; for(int j = 0; j < d; j++) lat[k][j] = (int)vr_int(&R, -2, 2);
+      for(int p = 0; p < k; p++){ int eq = 1; for(int j = 0; j < d; j++) if(lat[p][j] != lat[k][j]) eq = 0; if(eq) dup = 1; }
+      if(!dup) break; }
+    for(int j = 0; j < d; j++) cen[k][j] = spacing * (lat[k][j] + 0.1 * (vr_unif(&R) - 0.5));
+  }
+  int fresh = pl->ntmode == 2 ? 0 : 2, nt = pl->ntmode == 1 ? 1 : n + fresh * K;
+  case_defaults(c);
+  snprintf(c->fam, sizeof c->fam, "%s", pl->fam);
+  c->id = pl->id; c->exact = 0; c->sep = pl->sep; c->n = n; c->d = d; c->K = K; c->start = start; c->balanced = bal; c->sub = 0;
+  c->nproc = pl->nproc > 0 ? pl->nproc : 1; c->hist = pl->hist; c->nopair = !pl->sep; c->refit = pl->refit;
+  c->lab = malloc(sizeof(int) * n); c->X = malloc(sizeof(double) * n * d); c->nt = nt; c->tlab = malloc(sizeof(int) * nt); c->T = malloc(sizeof(double) * nt * d);
+  int r = 0;
+  for(int k = 0; k < K; k++) for(int i = 0; i < pl->cnt[k]; i++){
+    c->lab[r] = k + start;
+    if(pl->dup && (i % 2) == 1) memcpy(c->X + r * d, c->X + (r - 1) * d, sizeof(double) * d);
+    else for(int j = 0; j < d; j++){ double z; do z = vr_norm(&R); while(fabs(z) > 3.0); c->X[r * d + j] = cen[k][j] + z; }
+    r++; }
+  /* order of the training objects */
+  if(pl->order == 0 || pl->order == 2){
+    for(int i = n - 1; i > 0; i--){ int j = (int)vr_int(&R, 0, i); int tl = c->lab[i]; c->lab[i] = c->lab[j]; c->lab[j] = tl;
+      for(int q = 0; q < d; q++){ double tv = c->X[i * d + q]; c->X[i * d + q] = c->X[j * d + q]; c->X[j * d + q] = tv; } }
+    if(pl->order == 2){ int j = 0; while(c->lab[j] != K - 1 + start) j++;
+      int tl = c->lab[0]; c->lab[0] = c->lab[j]; c->lab[j] = tl; for(int q = 0; q < d; q++){ double tv = c->X[q]; c->X[q] = c->X[j * d + q]; c->X[j * d + q] = tv; } }
+  }
+  else if(pl->order == 1){        /* reverse: labels non-increasing, the first object belongs to the last class */
+    for(int i = 0; i < n / 2; i++){ int j = n - 1 - i; int tl = c->lab[i]; c->lab[i] = c->lab[j]; c->lab[j] = tl;
+      for(int q = 0; q < d; q++){ double tv = c->X[i * d + q]; c->X[i * d + q] = c->X[j * d + q]; c->X[j * d + q] = tv; } }
+  }
+  /* test objects: the training objects and two fresh ones per class, or one single fresh object of the last class */
+  if(pl->ntmode == 1){ c->tlab[0] = K - 1 + start; for(int j = 0; j < d; j++){ double z; do z = vr_norm(&R); while(fabs(z) > 3.0); c->T[j] = cen[K - 1][j] + z; } }
+  else {
+    memcpy(c->T, c->X, sizeof(double) * n * d); for(int i = 0; i < n; i++) c->tlab[i] = c->lab[i];
+    r = n;
+    for(int k = 0; k < K; k++) for(int i = 0; i < fresh; i++){ c->tlab[r] = k + start; for(int j = 0; j < d; j++){ double z; do z = vr_norm(&R); while(fabs(z) > 3.0); c->T[r * d + j] = cen[k][j] + z; } r++; }
+  }
+  /* K5: non-representable grid */
+  if(pl->grid > 0){ double g = (double)pl->grid; for(long i = 0; i < (long)n * d; i++) c->X[i] = round(c->X[i] * g) / g; for(long i = 0; i < (long)nt * d; i++) c->T[i] = round(c->T[i] * g) / g; }
+  /* K3 / K4: common offset of up to 10^shiftexp spreads per feature, everything in units of 2^unitexp */
+  c->unitexp = pl->unitexp; c->unit = ldexp(1.0, pl->unitexp);
+  double rr = pl->shiftexp > 0 ? pow(10.0, pl->shiftexp) : 0.0, mx = 0;
+  for(int j = 0; j < d; j++){ double o = rr * (0.5 + 0.5 * vr_unif(&R)) * (vr_unif(&R) < 0.5 ? -1.0 : 1.0); if(j == 0) o = rr; c->off[j] = o; if(fabs(o) > mx) mx = fabs(o); }
+  for(int tries = 0; tries < 8; tries++){
+    int bad = 0;
+    for(long i = 0; i < (long)n * d && !bad; i++) if(fabs(fabs((c->X[i] + c->off[i % d]) * c->unit) - MISSCODE) < 1.0) bad = 1;
+    for(long i = 0; i < (long)nt * d && !bad; i++) if(fabs(fabs((c->T[i] + c->off[i % d]) * c->unit) - MISSCODE) < 1.0) bad = 1;
+    if(!bad) break;
+    for(int j = 0; j < d; j++) c->off[j] += 7.0;
+  }
+  for(long i = 0; i < (long)n * d; i++) c->X[i] = (c->X[i] + c->off[i % d]) * c->unit;
+  for(long i = 0; i < (long)nt * d; i++) c->T[i] = (c->T[i] + c->off[i % d]) * c->unit;
+  for(int j = 0; j < d; j++) c->off[j] *= c->unit;
+  c->shift = (long)ceil(mx);
+  c->pairseed = vr_next(&R);
+}
+
 int main(int argc, char **argv){
-  if(argc < 4){ fprintf(stderr, "usage: c08_drv out exact casefile | out ledger seed first count sep\n"); return 2; }
+  if(argc < 4){ fprintf(stderr, "usage: c08_drv out exact casefile | out ledger seed first count sep | out plan planfile\n"); return 2; }
   vrt_open(argv[1]);
   g_stage = mmap(NULL, sizeof(int), PROT_READ | PROT_WRITE, MAP_SHARED | MAP_ANONYMOUS, -1, 0);
   if(g_stage == MAP_FAILED){ perror("mmap"); return 2; }
@@ -314,18 +619,29 @@ int main(int argc, char **argv){
 #endif
   if(!strcmp(argv[2], "exact")){
     FILE *fp = fopen(argv[3], "r"); if(!fp){ perror(argv[3]); return 2; }
-    long id; int n, d;
-    while(fscanf(fp, "%ld %d %d", &id, &n, &d) == 3){
-      lcase c; memset(&c, 0, sizeof c);
-      c.id = id; c.exact = 1; c.n = n; c.d = d; c.lab = malloc(sizeof(int) * n); c.X = malloc(sizeof(double) * n * d);
+    long id, off, mul, den; int n, d, nT;
+    while(fscanf(fp, "%ld %d %d %d %ld %ld %ld", &id, &n, &d, &nT, &off, &mul, &den) == 7){
+      lcase c; memset(&c, 0, sizeof c); case_defaults(&c);
+      if(d > 2 || mul < 1 || den < 1) return 2;
+      strcpy(c.fam, (off == 0 && mul == 1 && den == 1) ? "exact" : "exact-recoded");
+      c.id = id; c.exact = 1; c.n = n; c.d = d; c.nT = nT; c.nt = n + nT; c.rc_off = off; c.rc_mul = mul; c.rc_den = den;
+      c.lab = malloc(sizeof(int) * n); c.Xi = malloc(sizeof(long) * n * d); c.Ti = malloc(sizeof(long) * (nT ? nT : 1) * d);
+      c.X = malloc(sizeof(double) * n * d); c.T = malloc(sizeof(double) * c.nt * d); c.tlab = malloc(sizeof(int) * c.nt);
       int mn = 1 << 30, mx = -1;
       for(int i = 0; i < n; i++){ if(fscanf(fp, "%d", &c.lab[i]) != 1) return 2; if(c.lab[i] < mn) mn = c.lab[i]; if(c.lab[i] > mx) mx = c.lab[i]; }
-      for(int i = 0; i < n * d; i++){ long v; if(fscanf(fp, "%ld", &v) != 1) return 2; c.X[i] = (double)v; }
-      c.start = mn; c.K = mx - mn + 1; c.nt = n; c.T = c.X; c.tlab = c.lab;
+      for(int i = 0; i < n * d; i++){ if(fscanf(fp, "%ld", &c.Xi[i]) != 1) return 2; }
+      for(int i = 0; i < nT * d; i++){ if(fscanf(fp, "%ld", &c.Ti[i]) != 1) return 2; }
+      for(int i = 0; i < n * d; i++) c.X[i] = ((double)c.Xi[i] + oexact(&c, i % d)) * (double)mul / (double)den;
+      memcpy(c.T, c.X, sizeof(double) * n * d);
+      for(int i = 0; i < nT * d; i++) c.T[n * d + i] = ((double)c.Ti[i] + oexact(&c, i % d)) * (double)mul / (double)den;
+      for(int i = 0; i < n; i++) c.tlab[i] = c.lab[i];
+      for(int i = 0; i < nT; i++) c.tlab[n + i] = -1;
+      c.start = mn; c.K = mx - mn + 1;
+      c.unit = (double)mul / (double)den;
       int bal = 1; for(int k = mn; k <= mx; k++){ int a = 0, b = 0; for(int i = 0; i < n; i++){ if(c.lab[i] == k) a++; if(c.lab[i] == mn) b++; } if(a != b) bal = 0; }
       c.balanced = bal;
       drive(&c);
-      free(c.lab); free(c.X);
+      free_case(&c);
     }
     fclose(fp);
   }
@@ -336,8 +652,26 @@ int main(int argc, char **argv){
       gen_ledger(seed, idx, sep, &c);
       drive(&c);
       if(c.K >= 3){ c.sub = 1; drive(&c); }
-      free(c.lab); free(c.X); free(c.tlab); free(c.T);
+      free_case(&c);
     }
+  }
+  else if(!strcmp(argv[2], "plan")){
+    FILE *fp = fopen(argv[3], "r"); if(!fp){ perror(argv[3]); return 2; }
+    plan pl; unsigned long long sd;
+    for(;;){
+      memset(&pl, 0, sizeof pl);
+      if(fscanf(fp, "%ld %llu %23s %d %d %d %d %d %d %d %d %d %d %d %d %d", &pl.id, &sd, pl.fam, &pl.K, &pl.d, &pl.start, &pl.order, &pl.ntmode, &pl.shiftexp, &pl.unitexp,
+                &pl.grid, &pl.nproc, &pl.hist, &pl.sep, &pl.dup, &pl.refit) != 16) break;
+      pl.seed = sd;
+      if(pl.K < 2 || pl.K > 5 || pl.d < 2 || pl.d > 6){ fprintf(stderr, "bad plan line %ld\n", pl.id); return 2; }
+      for(int k = 0; k < pl.K; k++) if(fscanf(fp, "%d", &pl.cnt[k]) != 1) return 2;
+      lcase c; memset(&c, 0, sizeof c);
+      gen_plan(&pl, &c);
+      drive(&c);
+      if(c.K >= 3 && !c.hist){ c.sub = 1; drive(&c); }
+      free_case(&c);
+    }
+    fclose(fp);
   }
   else { fprintf(stderr, "bad mode\n"); return 2; }
   vrt_close();
